@@ -116,6 +116,9 @@ func allInputs() []input {
 		{"i3:forty-and-five", i3, true},
 		{"i4:packed-tag1-empty-nested", cat(ln(1, cat(refwire.AppendVarint(nil, 9), refwire.AppendVarint(nil, 0), refwire.AppendVarint(nil, 300))), ln(2, nil)), true},
 		{"i5:malformed-tail", cat(vi(1, 66), vi(1, 67), ln(2, nested(68, true)), []byte{0x1a, 0x7f, 0x01}), false},
+		// the outer message is well-formed, the SECOND of three nested elements is not (a key without a value):
+		// NestedResults fails half-way, after the first element has been decoded into a pooled result
+		{"i6:bad-second-nested", cat(vi(1, 77), ln(2, nested(71, true)), ln(2, []byte{0x08}), ln(2, nested(73, false))), true},
 	}
 }
 
@@ -304,6 +307,17 @@ func (w *world) apply(o op) {
 			}
 			return
 		}
+		allOK := true
+		for _, o := range occs {
+			if _, ok := lazyref.RefFields(o.Payload); !ok {
+				allOK = false
+			}
+		}
+		if !allOK {
+			// a malformed element: an error is the expected answer (nothing is handed out); if results are handed
+			// out nevertheless they are not tracked (their contents are unspecified)
+			return
+		}
 		if err != nil || len(nrs) != len(occs) {
 			w.fail("isolation/NestedResults/wrong-count", "%s: NestedResults(2) returned %d results, err %v; reference has %d", w.inputs[h.in].name, len(nrs), err, len(occs))
 			return
@@ -379,17 +393,21 @@ func shortStack() string {
 	return strings.Join(keep, " <- ")
 }
 
+func quickInputs(inputs []input) []input {
+	return []input{inputs[0], inputs[1], inputs[2], inputs[3], inputs[5], inputs[6]}
+}
+
 func worker(sh *ev.Shard) {
 	cfgs := allConfigs()
 	inputs := allInputs()
-	depth, maxLive, dev, nIn := 6, 2, 1, 4
+	depth, maxLive, dev := 6, 2, 1
 	if sh.Thorough() {
-		depth, maxLive, dev, nIn = 8, 2, 2, 6
+		depth, maxLive, dev = 8, 2, 2
 	}
-	// quick uses inputs i0,i1,i2 + malformed; thorough all six
+	// quick uses every input but i4; thorough all seven
 	use := inputs
-	if nIn < len(inputs) {
-		use = []input{inputs[0], inputs[1], inputs[2], inputs[3], inputs[5]}
+	if !sh.Thorough() {
+		use = quickInputs(inputs)
 	}
 	var calls int64
 	type plan struct{ depth, maxLive, dev int }
@@ -469,7 +487,7 @@ func replay(path string) {
 		os.Exit(2)
 	}
 	inputs := allInputs()
-	use := []input{inputs[0], inputs[1], inputs[2], inputs[3], inputs[5]}
+	use := quickInputs(inputs)
 	if art.Detail.MaxLive == 0 {
 		art.Detail.MaxLive = 1
 	}
